@@ -1,0 +1,30 @@
+//go:build verif
+
+package packets
+
+import "net/netip"
+
+// VerifNewSink and VerifNewSource, when set, replace the raw-socket Sink and the AF_PACKET Source
+// handed out by NewSinkLinux / NewAFPacketSource. They exist only in builds with the `verif` tag
+// and are used by the out-of-tree verification harness to run the real entry points over a
+// simulated wire.
+var (
+	VerifNewSink   func(addr netip.Addr) (Sink, error)
+	VerifNewSource func() (Source, error)
+)
+
+func verifSink(addr netip.Addr) (Sink, bool, error) {
+	if VerifNewSink == nil {
+		return nil, false, nil
+	}
+	s, err := VerifNewSink(addr)
+	return s, true, err
+}
+
+func verifSource() (Source, bool, error) {
+	if VerifNewSource == nil {
+		return nil, false, nil
+	}
+	s, err := VerifNewSource()
+	return s, true, err
+}
